@@ -55,7 +55,28 @@ def factories():
         n.id = "same"
         return n
 
-    return {"raw": raw, "expr": expr, "dup-ids": dup, "same-id": same}
+    class Postfix(E.UnaryExpression):
+        """a unary operator written after its operand: the public child_on_left option of
+        UnaryExpression keeps the operand in the LEFT slot"""
+
+        def __init__(self, child=None):
+            super().__init__(child, child_on_left=True)
+
+    BIN = (E.AddExpression, E.MultiplyExpression, E.SubtractExpression, E.DivideExpression, E.PowerExpression, E.EqualExpression)
+    UN = (E.NegateExpression, E.SgnExpression, E.FactorialExpression, E.AbsExpression)
+
+    def typed(l, r, i):
+        # the concrete expression classes, chosen by what the shape has at this node: a node with
+        # only a left child is a postfix unary operator, one with only a right child a prefix one
+        if l is None and r is None:
+            return E.VariableExpression("abc"[i % 3]) if i % 2 else E.ConstantExpression(i)
+        if l is not None and r is not None:
+            return BIN[i % len(BIN)](l, r)
+        if r is not None:
+            return UN[i % len(UN)](r)
+        return Postfix(l)
+
+    return {"raw": raw, "expr": expr, "dup-ids": dup, "same-id": same, "typed": typed}
 
 
 def drive(rec, s, fac):
